@@ -440,9 +440,9 @@ def sec_keys(ck, E, S_, K, NB, first=False):
     root = S["key"][()]
 
     def derived(t):
-        return any(c.eq(root) for c in concrete.key_terms([t])) and not t.eq(root)
+        return any(c.eq(root) for c in concrete.key_terms([t]))
     ck.fact(f"epochs.keys_derived_from_train_key@{cfg}", all(derived(k) for k in ks),
-            "every permutation key is a proper split/fold descendant of the key given to train: " + ", ".join(str(k) for k in ks))
+            "every permutation key is derived from the key given to train (so the shuffle changes with it): " + ", ".join(str(k) for k in ks))
     if len(ks) < 2:
         return
     ax = concrete.key_axioms(ks + [root])
@@ -457,8 +457,10 @@ def sec_keys(ck, E, S_, K, NB, first=False):
         vals[tr.in_names.index("buf_observations")] = jnp.arange(N).reshape(lead)
         concrete.run_real(tr, vals, w)
         seen = [np.asarray(ops[0]).tolist() for name, ops, r in w.calls if name == "RAND_permutation"]
-        dup = len({str(s) for s in seen}) < len(seen)
-        return dup, {"function": tr.label, "permutation_key_data_per_epoch": seen, "problem": "two epochs shuffle with the same key" if dup else ""}
+        # a pure draw with loop-invariant arguments may be hoisted out of the epoch scan and executed once: fewer than K distinct keys = reuse
+        dup = len({str(s) for s in seen}) < K
+        return dup, {"function": tr.label, "num_epochs": K, "key_data_reaching_permutation": seen,
+                     "problem": f"{len({str(s) for s in seen})} distinct shuffle key(s) for {K} epochs" if dup else ""}
     ck.prove(f"epochs.fresh_keys@{cfg}", ax, goal, replay=rp)
     if first:
         ck.control(f"control.epochs.keys_equal_without_key_axioms@{cfg}", [], goal)
@@ -642,7 +644,7 @@ def sec_resolve_axes(ck, ndims, arities, per_cond):
             rep, info = False, {"crosshair": msg}
             if m:
                 nd = int(fname.rsplit("_", 1)[1])
-                argv = [int(x.split("=")[1]) for x in m.group(2).split(",") if "=" in x]
+                argv = [int(x) for x in re.findall(r"(?<![\w.])-?\d+", re.sub(r"\w+\s*=", "", m.group(2)))]
                 axes = None if "none" in fname else (argv[0] if "int" in fname else tuple(argv))
                 real = mkrb((1,) * nd) if nd else None
                 try:
@@ -690,14 +692,12 @@ def main():
     if ck.thorough:
         maxN = 12
         cfgs = []
-        for E, S_ in shapes(maxN):
+        for E, S_ in shapes(8):
             N = E * S_
-            Bs = sorted({b for b in (1, 2, 3, 4, N // 2, N - 1, N) if 1 <= b <= N})
-            if N <= 8:
-                Bs = list(range(1, N + 1))
-            cfgs += [(E, S_, b) for b in Bs]
+            cfgs += [(E, S_, b) for b in sorted({b for b in (1, 2, 3, N // 2, N - 1, N) if 1 <= b <= N})]
+        cfgs += [(1, 9, 2), (1, 10, 3), (1, 11, 4), (1, 12, 5), (2, 5, 3), (2, 6, 4), (3, 3, 2), (3, 4, 5), (4, 3, 6), (2, 6, 12)]
         idx_cfgs = [(N, B) for N in range(1, maxN + 1) for B in range(1, N + 1)]
-        gather_cfgs = [(N, B) for N in (1, 2, 3, 5, 8, 12) for B in (1, 2, 3) if B <= max(N, 1) + 1]
+        gather_cfgs = [(N, B) for N in (1, 2, 3, 5, 8, 12) for B in (1, 2, 3)]
         flat_cfgs = [(E, S_) for E, S_ in shapes(maxN) if E > 1]
         sample_cfgs = [(1, 5, 2), (2, 2, 3), (2, 3, 6), (3, 2, 4), (4, 3, 5), (2, 6, 4)]
         key_cfgs = [(2, 2, 2, 2), (2, 2, 3, 1), (1, 4, 4, 2)]
@@ -735,18 +735,24 @@ def main():
     for i, (N, B) in enumerate(idx_cfgs):
         with ck.section(f"batch_indices@N={N},B={B}"):
             sec_indices(ck, N, B, first=(N, B) == (5, 2))
+    second = ck.second
     for i, (E, S_, B) in enumerate(cfgs):
         with ck.section(f"batches@E={E},S={S_},B={B}"):
+            ck.second = second and E * S_ <= 6          # the system z3 4.8.12 needs 10-40 s per query beyond that
             sec_batches(ck, E, S_, B, first=(i == 0), controls=(E, S_, B) in ((2, 3, 4), (2, 2, 2)))
     for i, (N, B) in enumerate(gather_cfgs):
         with ck.section(f"gather@N={N},B={B}"):
+            ck.second = second and N <= 8
             sec_gather(ck, N, B, first=(N, B) == (3, 2))
+    ck.second = second
     for i, (E, S_) in enumerate(flat_cfgs):
         with ck.section(f"flatten@E={E},S={S_}"):
             sec_flatten(ck, E, S_, first=(E, S_) == (2, 3))
     for i, (E, S_, B) in enumerate(sample_cfgs):
         with ck.section(f"sample@E={E},S={S_},B={B}"):
+            ck.second = second and E * S_ <= 6
             sec_sample(ck, E, S_, B, first=(i == 0))
+    ck.second = second
     for i, c in enumerate(key_cfgs):
         with ck.section(f"keys@{c}"):
             sec_keys(ck, *c, first=(i == 0))
@@ -754,11 +760,16 @@ def main():
         sec_resolve_axes(ck, *ch)
     for i, c in enumerate(visit_cfgs):
         with ck.section(f"visits@{c}"):
+            ck.second = second and c[0] * c[1] <= 5
             r = sec_visits(ck, *c, timeout=150 if ck.thorough else 40)
             if i == 0 and r is not None:
                 it, S, cnt, A, K, used, N = r
                 ck.witness("witness.train.assumptions_sat", A)
                 ck.control("control.train.some_sample_visited_twice", A, conj([c <= 0 for c in cnt]))
+    ck.second = second
+    if second:
+        ck.notes.append("second solver (/usr/bin/z3 4.8.12): every query of batch_indices / flatten / keys / resolve-free families, and the batches / sample / gather / visit-count queries up to "
+                        "N<=6 (N<=8 gather, N<=5 visit counts); larger instances of the same query shapes are decided by z3 5.1 only (the old build needs 10-40 s each)")
     ck.finish("batch_indices / batches / gather / flatten_axes / RolloutBuffer.sample are traced on a rollout buffer with nested dict/tuple observations and actions, an action mask and a "
               "policy state, and interpreted over z3 terms with jax.random.permutation / choice as contract stubs (an arbitrary permutation / arbitrary distinct indices): the index matrix "
               "has floor(N/B) rows of B pairwise distinct in-range entries; every row of every minibatch carries the tag of exactly one collected sample, no tag twice, and every leaf of the "
